@@ -155,6 +155,16 @@ def gen_inputs(rng, tier):
                 inputs.append("%s(1.5, -%s)" % (f, m))
             inputs.append("%s(%s, 2)" % (f, m))
         inputs += ["%s()" % f, "%s(1, 2, 3)" % f, "%s(,)" % f, "%s(1 m, 1 s)" % f, "%s(%s(1e400))" % (f, f), "%s(1) ^ 0" % f, "%s(1 / 0)" % f]
+    # the tool's own output alphabet typed back in: superscript digits and minus, the product dot, the cut-off mark, micro signs,
+    # degree and prime signs -- every one of them at the end of, inside and in front of a unit word, in every position a unit can
+    # stand (after a number, after `to`, in a function argument, below a bar); characters of one, two and three bytes
+    OUT = list("⁰¹²³⁴⁵⁶⁷⁸⁹⁻") + ["⋅", "…", "µ", "μ", "°", "′", "″", "Ω", "Å", "‰", "½", "²³", "⁻¹", "¹⁰", "⁴⁵"]
+    for c in OUT:
+        for w in ("m", "km", "s", "J", "°C", "kg"):
+            for word in (w + c, c + w, w + c + w, w + c + c):
+                inputs += ["2 %s" % word, "1 m^2 to %s" % word, "3 km/%s" % word, "round(2 %s)" % word, "12 %s * 2 s" % word,
+                           "1 %s to %s" % (word, w), "2%s" % word]
+        inputs += ["2 %s" % c, "1 %s 2" % c, "pi%s" % c, "(1 m)%s" % c, "2 m %s s" % c]
     return [s for s in inputs if "\x00" not in s and power_budget_ok(s)]
 
 
@@ -211,7 +221,7 @@ def run(rng, tier, model_ok):
         "evaluations": 2 * len(inputs) + len(sample), "distinct_nontrivial": len(set(inputs)),
         "rule": "token soups of up to 40 tokens (numbers with exponents up to 3 digits, powers up to 2 digits, unit words, keywords, operators, "
                 "braces, Unicode blanks and stray characters), well-formed random queries and single-edit mutations of them, products / quotients / "
-                "powers / sums of quantities with derived units, boundary operands under every operator, every function x arguments at the edges of the float and machine-integer ranges, arbitrary Unicode strings; each in the debug-assertion and in the release build, "
+                "powers / sums of quantities with derived units, boundary operands under every operator, every function x arguments at the edges of the float and machine-integer ranges, the characters of the tool's own output (superscripts, product dot, cut-off mark) in and around unit words, arbitrary Unicode strings; each in the debug-assertion and in the release build, "
                 "a sample through the `any` binary; non-trivial = distinct inputs",
         "samples": [inputs[i] for i in (3, len(inputs) // 3, len(inputs) // 2, len(inputs) - 2)],
         "mismatches": mismatches, "failures": failures,
